@@ -40,6 +40,7 @@ use std::{
 };
 
 const KEY: &[u8] = b"c16-key-0123456789";
+const KEY2: &[u8] = b"c16-second-key-012";
 const VALUE: &[u8] = b"C16-RECORD-VALUE-MARKER";
 const KAD_PROTOCOL: &str = "/ipfs/kad/1.0.0";
 const REPLICATION: usize = 3;
@@ -173,11 +174,14 @@ pub struct KadScenario {
     /// L holds the record in its own store before a `get_record`
     #[serde(default)]
     pub local_copy: bool,
+    /// `max_provider_keys` of L's store; a second `start_providing` then uses a second key, which the store refuses
+    #[serde(default)]
+    pub provider_keys_limit: Option<usize>,
 }
 
 impl KadScenario {
     fn base(op: OpKind, quorum: Q, faults: [Fault; 3]) -> Self {
-        KadScenario { op, quorum, faults, topo: Topo::Star, preconnect: false, out_limit: None, kills: vec![], seeded: true, extra_op: None, local_copy: false }
+        KadScenario { op, quorum, faults, topo: Topo::Star, preconnect: false, out_limit: None, kills: vec![], seeded: true, extra_op: None, local_copy: false, provider_keys_limit: None }
     }
 
     /// the operations the user of L issues, in order
@@ -294,7 +298,8 @@ fn spawn_local_user(w: &mut World, node: usize, mut handle: KademliaHandle) -> (
                     Some(LCmd::AddKnown(peer, addresses)) => handle.add_known_peer(peer, addresses).await,
                     Some(LCmd::Store) => handle.store_record(Record::new(KEY.to_vec(), VALUE.to_vec())).await,
                     Some(LCmd::Run(idx, op, q, peers)) => {
-                        let key = RecordKey::from(KEY.to_vec());
+                        // a second announcement is for a second key
+                        let key = if idx == 1 && op == OpKind::StartProviding { RecordKey::from(KEY2.to_vec()) } else { RecordKey::from(KEY.to_vec()) };
                         let qid = match op {
                             OpKind::FindNode => handle.find_node(crate::util::peer(990)).await,
                             OpKind::PutRecord => handle.put_record(Record::new(KEY.to_vec(), VALUE.to_vec()), q.quorum()).await,
@@ -409,7 +414,10 @@ impl Scenario for KadScenario {
         let keep_alive = Duration::from_secs(3600);
         let kad = || KadConfigBuilder::new().with_replication_factor(REPLICATION).build();
         // node 0 = L
-        let (cfg_l, handle_l) = kad();
+        let (cfg_l, handle_l) = match self.provider_keys_limit {
+            Some(n) => KadConfigBuilder::new().with_replication_factor(REPLICATION).with_max_provider_keys(n).build(),
+            None => kad(),
+        };
         let mut builder = ConfigBuilder::new().with_libp2p_kademlia(cfg_l).with_keep_alive_timeout(keep_alive);
         if let Some(n) = self.out_limit {
             builder = builder.with_connection_limits(ConnectionLimitsConfig::default().max_outgoing_connections(Some(n)));
@@ -820,6 +828,14 @@ pub fn scenarios(thorough: bool) -> Vec<(KadScenario, u8)> {
             s.kills = kills;
             v.push((s, 1));
         }
+    }
+    // 8b. the local provider store is full: a second announcement (another key) is refused by the store; it still has to
+    // end with exactly one terminal event
+    for faults in [ok, [Fault::Dead, Fault::Ok, Fault::Ok]] {
+        let mut s = KadScenario::base(OpKind::StartProviding, Q::One, faults);
+        s.extra_op = Some(OpKind::StartProviding);
+        s.provider_keys_limit = Some(1);
+        v.push((s, 1));
     }
     if thorough {
         // 9. all fault assignments from {ok, no-address, undialable, dead}^3
